@@ -135,6 +135,8 @@ func c18Ops() []c18op {
 		{"Inner(V,V)", func(s *c18shared) string { v, e := tensor.Inner(s.V, s.V); return fmt.Sprint(v, e != nil) }},
 		{"Outer(V,V2)", func(s *c18shared) string { return dig(tensor.Outer(s.V, s.V2)) }},
 		{"TensorMul(MT,M)", func(s *c18shared) string { r, e := s.MT.TensorMul(s.M, []int{1}, []int{0}); return dig(r, e) }},
+		{"Norm(M)", func(s *c18shared) string { r, e := s.M.Norm(tensor.FrobeniusNorm()); return dig(r, e) }},
+		{"Norm(SV,1)", func(s *c18shared) string { r, e := s.SV.Norm(tensor.Norm(1), 1); return dig(r, e) }},
 		{"Clone(MT)", func(s *c18shared) string { return dig(s.MT.Clone().(tensor.Tensor), nil) }},
 		{"Materialize(SV)", func(s *c18shared) string { return dig(s.SV.Materialize(), nil) }},
 		{"SafeT(M)", func(s *c18shared) string { r, e := s.M.SafeT(); return dig(r, e) }},
@@ -188,6 +190,29 @@ func c18Ops() []c18op {
 			a, b := priv(), priv()
 			return dig(tensor.Lt(a, b, tensor.AsSameType())) + dig(a, nil) + dig(b, nil)
 		}},
+		// scalar forms of a comparison, min/max and arithmetic between a ONE-element tensor and a scalar (these have their own
+		// early-return paths around the pooled scalar header; C19 runs every such form sequentially and counts the headers
+		// in the pool), followed by an ordinary tensor-scalar operation
+		{"private:ScalarOpsLen1", func(s *c18shared) string {
+			one := func() *tensor.Dense { return tensor.New(tensor.WithShape(1), tensor.WithBacking([]float64{3})) }
+			out := ""
+			for _, f := range []func(a, b interface{}, opts ...tensor.FuncOpt) (tensor.Tensor, error){tensor.Gte, tensor.ElEq, tensor.MaxBetween, tensor.Sub} {
+				f := f
+				for _, g := range []func() (tensor.Tensor, error){
+					func() (tensor.Tensor, error) { return f(one(), 2.0) },
+				} {
+					func() {
+						defer func() {
+							if recover() != nil {
+								out += "PANIC" // a panicking form is recorded under C07: the same alone and interleaved
+							}
+						}()
+						out += dig(g())
+					}()
+				}
+			}
+			return out + dig(tensor.Add(priv(), 1.0))
+		}},
 		{"UsePool-toggle", func(s *c18shared) string {
 			tensor.DontUsePool()
 			t := tensor.New(tensor.WithShape(2), tensor.WithBacking([]float64{1, 2}))
@@ -236,7 +261,7 @@ func runC18(r *core.Run) {
 	isHot := map[int]bool{}
 	for i, op := range ops {
 		switch op.name {
-		case "Dot(V,M)", "Dot(V2,MT)", "TensorMul(MT,M)", "Sum(M,0)", "private:New+Return", "private:T+UT+Transpose", "Concat(M,SV)", "MultIter(M,SV)", "MulScalar(M)", "GtScalar(SV)":
+		case "private:ScalarOpsLen1", "Norm(M)", "Dot(V,M)", "Dot(V2,MT)", "TensorMul(MT,M)", "Sum(M,0)", "private:New+Return", "private:T+UT+Transpose", "Concat(M,SV)", "MultIter(M,SV)", "MulScalar(M)", "GtScalar(SV)":
 			hot = append(hot, i)
 			isHot[i] = true
 		}
